@@ -686,6 +686,13 @@ func (w *World) execOperator(o *Obs, st *Step, secVal string) *Obs {
 // doRequest sends one HTTP request through the full handler chain.
 func (w *World) doRequest(o *Obs, st *Step, method, path, rawq, body, ctype string) *Obs {
 	br := w.Browsers[st.B]
+	if xq := st.str("xquery"); xq != "" {
+		// a query parameter the flow knows nothing about
+		if rawq != "" {
+			rawq += "&"
+		}
+		rawq += xq
+	}
 	if st.Kind != "replay" {
 		br.last = &lastReq{method: method, path: path, rawq: rawq, body: body, ctype: ctype, step: *st, raters: o.raters}
 	}
@@ -718,6 +725,11 @@ func (w *World) doRequest(o *Obs, st *Step, method, path, rawq, body, ctype stri
 	req.Header.Set(browserHeader, fmt.Sprint(st.B))
 	if ctype != "" {
 		req.Header.Set("Content-Type", ctype)
+	}
+	if h := st.str("hdr"); h != "" {
+		if name, val, ok := strings.Cut(h, ": "); ok {
+			req.Header.Set(name, val)
+		}
 	}
 	rec := httptest.NewRecorder()
 	rec.Header().Set(browserHeader, fmt.Sprint(st.B))
